@@ -73,6 +73,73 @@ def divergence_sites(db):
     return out
 
 
+def const_cost_findings(db):
+    """C18.K: the work the compile-time evaluator does for a const fn of the crate must not grow with the length - the evaluator aborts an
+    evaluation that runs too long (`long_running_const_eval`, an error by default), so a const fn that steps once per element is rejected
+    for the large lengths of the lattice although it is accepted for small ones. Decided structurally: the MIR of every const fn (and of the
+    crate functions it calls) has no cycle and the call graph among them none either; bulk work is left to single intrinsic operations
+    (array repeat, transmute, copy). Returns (number of const bodies judged, findings [(key, at, what)])."""
+    from ..mirxf import normal_succs
+    consts = [b for b in db.bodies if b.get("const") and b["kind"] in ("Fn", "AssocFn")]
+    by_key = {b["key"]: b for b in db.bodies}
+    finds = []
+
+    def has_cycle(b):
+        blocks = b["mir"]["blocks"]
+        color = {}
+        stack = [(0, iter(normal_succs(blocks[0]["term"])))]
+        color[0] = 1
+        while stack:
+            n, it = stack[-1]
+            adv = False
+            for s_ in it:
+                if color.get(s_) == 1:
+                    return blocks[s_]["term"].get("at") or b["at"]
+                if s_ not in color:
+                    color[s_] = 1
+                    stack.append((s_, iter(normal_succs(blocks[s_]["term"]))))
+                    adv = True
+                    break
+            if not adv:
+                color[n] = 2
+                stack.pop()
+        return None
+
+    def callees(b):
+        out = []
+        for blk in b["mir"]["blocks"]:
+            t = blk["term"]
+            if blk.get("cleanup") or t["k"] != "call" or t["f"].get("k") != "fn":
+                continue
+            k = db.body_key_of_call(t) if hasattr(db, "body_key_of_call") else None
+            if k is None:
+                r = t["f"].get("res") or t["f"]["def"]
+                cand = db.by_path.get(r) or db.by_path.get(t["f"]["def"])
+                k = cand["key"] if cand else None
+            if k in by_key:
+                out.append(k)
+        return out
+    # closure under calls
+    reach = {}
+    for b in consts:
+        seen, work = {b["key"]}, [b["key"]]
+        while work:
+            k = work.pop()
+            for c in callees(by_key[k]):
+                if c == b["key"]:
+                    finds.append((b["key"], b["at"], "the const fn is (mutually) recursive: its evaluation cost is not bounded independently of the length"))
+                if c not in seen:
+                    seen.add(c)
+                    work.append(c)
+        reach[b["key"]] = seen
+        for k in sorted(seen):
+            at = has_cycle(by_key[k])
+            if at is not None:
+                finds.append((b["key"], at, "a loop in %s: the compile-time evaluator executes it step by step and gives up (long_running_const_eval) for large lengths" % (
+                    "the body" if k == b["key"] else "the callee " + k)))
+    return len(consts), finds
+
+
 def check(ctx):
     ctx.explanation = EXPLANATION
     ctx.trusted = ["the const evaluator executes the same MIR faithfully (rustc)", "rustc's const-qualification"]
@@ -96,6 +163,10 @@ def check(ctx):
         # no const fn silently lost from the surface: every const fn of the build is on the list (new ones are fine)
         div = divergence_sites(db)
         ctx.ob("C18.D", "divergence intrinsics (%s)" % cfg, not div, "calls to const_eval_select-style intrinsics in the crate: %s" % (div or "none"), cfg=cfg)
+        nk, kf = const_cost_findings(db)
+        for j, (key_, at_, what) in enumerate(kf):
+            ctx.ob("C18.K", "%s#cost#%d" % (key_, j), REFUTED, what, at=at_, cfg=cfg)
+        ctx.ob("C18.K", "const fns (%s)" % cfg, nk >= 27, "const fns whose MIR (with the crate functions they call) was searched for loops and recursion: %d; findings are listed separately" % nk, cfg=cfg)
         # C18.P: no raw access through a pointer into a local whose storage has ended (the const evaluator frees the local and rejects the access;
         # at run time it is undefined behaviour).  Sweep over every body of the crate, private helpers expanded.
         from ..dangling import dangling_uses
